@@ -36,6 +36,9 @@ def cases(tier, seed):
                         continue
                     for frozen in (True, False):
                         out.append(dict(kind=kind, dtype=dt, qtype=q, act=a, frozen=frozen, cycles=2 if tier == "quick" else 3))
+                    if a is not None and q in ("qint8", "qint4") and kind in ("linear", "lnorm", "nested"):
+                        # a module whose activations were streamlined away by calibration (activation_qtype None, saved as "none")
+                        out.append(dict(kind=kind, dtype=dt, qtype=q, act=a, frozen=True, cycles=1, streamlined=True))
     return out
 
 
@@ -116,7 +119,7 @@ def compare_states(a, b):
     return probs
 
 
-def scenario(kind, dt, qtype, act, frozen, cycles, x, read, sym_hook=None):
+def scenario(kind, dt, qtype, act, frozen, cycles, x, read, sym_hook=None, streamlined=False):
     """save -> load into three kinds of target -> compare -> save again; returns list of problems"""
     from optimum.quanto import freeze, quantize, requantize
 
@@ -128,6 +131,11 @@ def scenario(kind, dt, qtype, act, frozen, cycles, x, read, sym_hook=None):
         models.set_scales(src, 0.031, 0.043)
     if sym_hook:
         sym_hook(src)
+    if streamlined:
+        from optimum.quanto.nn import QModuleMixin
+
+        first = next(mod for mod in src.modules() if isinstance(mod, QModuleMixin) and mod.activation_qtype is not None)
+        first.activation_qtype = None  # the state Calibration(streamline=True) leaves behind
     if frozen:
         freeze(src)
     probs = []
@@ -189,7 +197,7 @@ def run_case(case, res):
     dt = api.DT[case["dtype"]]
     _, x = models.make(case["kind"], dt)
     # byte-level serializers, concretely on the seed
-    probs_c, sd = scenario(case["kind"], dt, case["qtype"], case["act"], case["frozen"], 1, x, lambda t: (t.dequantize() if hasattr(t, "dequantize") else t).detach().clone())
+    probs_c, sd = scenario(case["kind"], dt, case["qtype"], case["act"], case["frozen"], 1, x, lambda t: (t.dequantize() if hasattr(t, "dequantize") else t).detach().clone(), None, case.get("streamlined", False))
     ser = serializer_roundtrips(sd)
     res.side_ok("serializers-identity-on-seed", not ser, "; ".join(ser)[:300])
     with Session(res) as m:
@@ -209,11 +217,11 @@ def run_case(case, res):
                     m.symbolic(mod.output_scale, f"s.{n}.out")
                     cnt[0] += 2
 
-        probs, _ = scenario(case["kind"], dt, case["qtype"], case["act"], case["frozen"], case["cycles"], x, lambda t: m.read(t) if type(t) in (torch.Tensor, torch.nn.Parameter) else m.read(t.dequantize()), hook)
+        probs, _ = scenario(case["kind"], dt, case["qtype"], case["act"], case["frozen"], case["cycles"], x, lambda t: m.read(t) if type(t) in (torch.Tensor, torch.nn.Parameter) else m.read(t.dequantize()), hook, case.get("streamlined", False))
     res.query("save-load-reproduces-model", "ALG", "unsat" if not probs else "sat", 0.0, nvars=x.numel() + cnt[0], sub=f"{len(probs)} differences")
     if probs or ser:
         res.side[-1]["replayed"] = True
-        res.candidate("roundtrip", "ALG", dict(kind=case["kind"], dtype=case["dtype"], qtype=case["qtype"], act=case["act"], frozen=case["frozen"], cycles=case["cycles"], x=api.enc_tensor(x), note=(probs + ser)[:4]), exact=False)
+        res.candidate("roundtrip", "ALG", dict(kind=case["kind"], dtype=case["dtype"], qtype=case["qtype"], act=case["act"], frozen=case["frozen"], cycles=case["cycles"], streamlined=case.get("streamlined", False), x=api.enc_tensor(x), note=(probs + ser)[:4]), exact=False)
 
 
 def replay(rec):
@@ -222,7 +230,7 @@ def replay(rec):
     inp = rec["inputs"]
     dt = api.DT[inp["dtype"]]
     x = api.dec_tensor(inp["x"])
-    probs, sd = scenario(inp["kind"], dt, inp["qtype"], inp["act"], inp["frozen"], inp["cycles"], x, lambda t: (t.dequantize() if hasattr(t, "dequantize") else t).detach().clone())
+    probs, sd = scenario(inp["kind"], dt, inp["qtype"], inp["act"], inp["frozen"], inp["cycles"], x, lambda t: (t.dequantize() if hasattr(t, "dequantize") else t).detach().clone(), None, inp.get("streamlined", False))
     probs += serializer_roundtrips(sd)
     keys = set()
     lowbit_grouped_unfrozen = (not inp["frozen"]) and wq.qt(inp["qtype"]).bits < 8 and inp["kind"] == "linear-wide"
